@@ -4,9 +4,12 @@ import (
 	"context"
 	"errors"
 	"fmt"
+	p2p_pb "github.com/celestiaorg/go-header/p2p/pb"
+	"github.com/libp2p/go-libp2p/core/peer"
 	"strings"
 	"sync"
 	"time"
+	"verifharness/peers"
 
 	header "github.com/celestiaorg/go-header"
 	hsync "github.com/celestiaorg/go-header/sync"
@@ -231,6 +234,71 @@ func c19HeadRaceStale(storeTo int, answer string) {
 	emit("C19 kind=headstale store=%d answer=%s => arrive=%s b=%s a=%s", storeTo, answer, arr, b, a)
 }
 
+// c19Integrated: the real Syncer on top of the real p2p Exchange (mocknet, scripted peers): a stale subjective head,
+// `tracked` peers in the tracker (0 = the Exchange falls back to its trusted peers), every asked peer answering
+// `answer`. Whatever the Exchange does with the answer, the Syncer must not adopt a head that does not verify
+// against its subjective head.
+func c19Integrated(e *p2pEnv, storeTo int, tracked int, answer string, R uint64) {
+	ctx := context.Background()
+	vhdr.TrustRange.Store(R)
+	defer vhdr.TrustRange.Store(0)
+	n := 2
+	ids := make([]peer.ID, n)
+	for i := 0; i < n; i++ {
+		e.peers[i].Reset(false, func(int, *p2p_pb.HeaderRequest) peers.Reply { return e.headReply(answer) })
+		ids[i] = e.hosts[i+1].ID()
+	}
+	defer func() {
+		for i := 0; i < n; i++ {
+			e.peers[i].Reset(false, nil)
+		}
+	}()
+	ex := e.client(ids[:1], 0, 500*time.Millisecond) // one trusted peer
+	ex.VerifSetTrackedPeers(ids[:tracked]...)
+	defer ex.Stop(ctx) //nolint:errcheck
+	st := newStoreWith(e.chain, 1, storeTo)
+	defer st.Stop(ctx) //nolint:errcheck
+	sub := &nopSub{}
+	s, err := hsync.NewSyncer[*vhdr.Header](ex, st, sub, hsync.WithSyncFromHeight(1), hsync.WithBlockTime(time.Second),
+		hsync.WithRecencyThreshold(time.Millisecond), hsync.WithTrustingPeriod(100*time.Hour))
+	if err != nil {
+		panic(err)
+	}
+	s.VerifInit()
+	res := "err"
+	hctx, cancel := context.WithTimeout(ctx, 3*time.Second)
+	if h, err := s.Head(hctx); err == nil && h != nil {
+		which := "?"
+		if int(h.H) <= len(e.chain) && sameHeader(h, e.chain[h.H-1]) {
+			which = "main"
+		} else if int(h.H) <= len(e.fork) && sameHeader(h, e.fork[h.H-1]) {
+			which = "fork"
+		}
+		res = fmt.Sprintf("%s:%d", which, h.H)
+	}
+	cancel()
+	_ = st.Sync(ctx)
+	stHead := "?"
+	if h, err := st.Head(ctx); err == nil {
+		if sameHeader(h, e.chain[h.H-1]) {
+			stHead = fmt.Sprintf("main:%d", h.H)
+		} else {
+			stHead = fmt.Sprintf("fork:%d", h.H)
+		}
+	}
+	var pend []string
+	for _, rg := range s.VerifPendingHeights() {
+		for _, h := range rg {
+			pend = append(pend, utoa(h))
+		}
+	}
+	ps := strings.Join(pend, ",")
+	if ps == "" {
+		ps = "-"
+	}
+	emit("C19 kind=integrated store=%d tracked=%d answer=%s R=%d => head=%s storehead=%s pending=%s", storeTo, tracked, answer, R, res, stHead, ps)
+}
+
 // concurrent callers share one head request and its result
 func c19Flight(n int, answer string, prior string) { c19FlightOn(20, n, answer, prior) }
 
@@ -338,6 +406,15 @@ func runC19(tier string, r *rng) {
 		c19HeadRace(20, 2*n)
 		c19HeadRaceLag(20, n, 2, 5)
 		c19HeadRaceLag(20, 0, 3, 6)
+	}
+	{
+		e := newP2PEnv(2)
+		for _, tracked := range []int{0, 1, 2} {
+			for _, ans := range []string{"main:21", "fork:21", "fork:30", "main:30", "main:60", "main:15", "fail:notfound"} {
+				c19Integrated(e, 20, tracked, ans, 15) // trust range 15: main:60 only soft-fails against 20
+			}
+		}
+		e.closer()
 	}
 	for _, ans := range []string{"fail", "ok:20", "ok:15", "ok:40"} {
 		c19HeadRaceStale(20, ans)
